@@ -649,6 +649,78 @@ Proof.
     assert (1 <= used fs (a :: t)) by lia. unfold k. nia.
 Qed.
 
+(* ------------------------------------------------------------------ functions on no guard-free cycle *)
+
+Lemma walk_remove_nodes : forall g gs p,
+  walk g p = true -> noguard gs p = true -> walk (remove_nodes g gs) p = true.
+Proof.
+  intros g gs p. induction p as [|a p IH]; intros Hw Hn; [reflexivity|].
+  destruct p as [|b p]; [reflexivity|].
+  rewrite walk_cons2 in Hw |- *. apply andb_true_iff in Hw. destruct Hw as [Hab Hw].
+  cbn [noguard forallb] in Hn. apply andb_true_iff in Hn. destruct Hn as [Ha Hn].
+  rewrite (IH Hw Hn), andb_true_r. rewrite edge_remove_nodes, Hab, Ha.
+  cbn [noguard forallb] in Hn. apply andb_true_iff in Hn. destruct Hn as [Hb _]. rewrite Hb. reflexivity.
+Qed.
+
+Lemma walk_stays : forall g R, succ_closed g R = true ->
+  forall t b, mem b R = true -> walk g (b :: t) = true -> forallb (fun m => mem m R) (b :: t) = true.
+Proof.
+  intros g R Hcl t. induction t as [|c t IH]; intros b Hb Hw.
+  - cbn [forallb]. rewrite Hb. reflexivity.
+  - rewrite walk_cons2 in Hw. apply andb_true_iff in Hw. destruct Hw as [Hbc Hw].
+    cbn [forallb]. rewrite Hb. cbn [andb]. apply IH; [|exact Hw].
+    unfold succ_closed in Hcl. rewrite forallb_forall in Hcl. apply mem_true_iff in Hb.
+    specialize (Hcl b Hb). rewrite forallb_forall in Hcl. apply Hcl. apply mem_true_iff. exact Hbc.
+Qed.
+
+(* a function that [off_cycle] accepts in the graph without guards: every call path that leads
+   from it back to itself contains a guard *)
+Theorem off_cycle_sound :
+  forall g gs a, off_cycle (remove_nodes g gs) a = true ->
+  forall t, walk g (a :: t ++ [a]) = true -> noguard gs (a :: t) = false.
+Proof.
+  intros g gs a Hoff t Hw. apply not_true_iff_false. intros Hn.
+  unfold off_cycle in Hoff. cbv zeta in Hoff.
+  apply andb_true_iff in Hoff. destruct Hoff as [Hoff Hna]. apply andb_true_iff in Hoff.
+  destruct Hoff as [Hcl Hs]. apply negb_true_iff in Hna.
+  set (R := reach_from (remove_nodes g gs) a) in *.
+  assert (Hng : noguard gs (a :: t ++ [a]) = true).
+  { change (a :: t ++ [a]) with ((a :: t) ++ [a]). rewrite noguard_app, Hn.
+    cbn [noguard forallb] in Hn |- *. apply andb_true_iff in Hn. destruct Hn as [Ha _]. rewrite Ha. reflexivity. }
+  pose proof (walk_remove_nodes g gs _ Hw Hng) as Hw'.
+  destruct (t ++ [a]) as [|b r] eqn:Htr; [destruct t; discriminate|].
+  rewrite walk_cons2 in Hw'. apply andb_true_iff in Hw'. destruct Hw' as [Hab Hw'].
+  rewrite forallb_forall in Hs. assert (Hb : mem b R = true) by (apply Hs; apply mem_true_iff; exact Hab).
+  pose proof (walk_stays _ R Hcl r b Hb Hw') as Hall. rewrite forallb_forall in Hall.
+  assert (Hin : In a (b :: r)) by (rewrite <- Htr; apply in_or_app; right; left; reflexivity).
+  specialize (Hall a Hin). rewrite Hna in Hall. discriminate.
+Qed.
+
+Lemma scount_app_l : forall D p q, (scount D p <= scount D (p ++ q))%nat.
+Proof.
+  intros D p q. induction p as [|a p IH]; [cbn [scount]; lia|].
+  destruct p as [|b p].
+  - cbn [app scount]. destruct q; cbn [scount]; lia.
+  - cbn [app]. change (scount D (a :: b :: p)) with ((if mem_edge (a, b) D then 1 else 0) + scount D (b :: p))%nat.
+    change (scount D (a :: b :: p ++ q)) with ((if mem_edge (a, b) D then 1 else 0) + scount D ((b :: p) ++ q))%nat.
+    lia.
+Qed.
+
+Lemma scount_app_r : forall D p q, (scount D q <= scount D (p ++ q))%nat.
+Proof.
+  intros D p q. induction p as [|a p IH]; [cbn [app]; lia|].
+  cbn [app]. destruct (p ++ q) as [|b r] eqn:Hpq.
+  - destruct q; [cbn [scount]; lia|]. destruct p; discriminate.
+  - change (scount D (a :: b :: r)) with ((if mem_edge (a, b) D then 1 else 0) + scount D (b :: r))%nat. lia.
+Qed.
+
+(* the nesting hypothesis follows from a bound on the whole path *)
+Lemma nest_bounded_of_total : forall D gs d p, (scount D p <= d)%nat -> nest_bounded D gs d p.
+Proof.
+  intros D gs d p H pre q post Heq _. subst p.
+  pose proof (scount_app_r D pre (q ++ post)). pose proof (scount_app_l D q post). lia.
+Qed.
+
 (* ------------------------------------------------------------------ the generated instance *)
 
 Lemma call_graph_closed : closed call_graph = true.
@@ -657,7 +729,7 @@ Lemma runtime_graph_closed : closed runtime_graph = true.
 Proof. vm_compute. reflexivity. Qed.
 
 (* (2) decided on the graph regenerated from the current source *)
-Lemma runtime_core_acyclic : acyclic runtime_core = true.
+Lemma runtime_core_acyclic : acyclic (core runtime_graph guard_fns descent_edges) = true.
 Proof. vm_compute. reflexivity. Qed.
 
 (* the user-call entry (the one call that hands over an AST node which is not below the caller's)
@@ -666,6 +738,22 @@ Proof. vm_compute. reflexivity. Qed.
 Lemma jump_edges_guarded :
   forallb (fun e => negb (mem_edge e descent_edges) && edge runtime_graph (fst e) (snd e)) jump_edges = true.
 Proof. vm_compute. reflexivity. Qed.
+
+(* the functions that make a user call (they hand over an AST node which is not below their own:
+   the only way native depth can grow without the nesting depth of the source or of the data)
+   are on no guard-free cycle: evaluator recursion through user functions meets a guard
+   whatever mix of constructs it goes through *)
+Lemma user_call_off_cycle :
+  forallb (fun e => off_cycle (remove_nodes runtime_graph guard_fns) (fst e)) jump_edges = true.
+Proof. vm_compute. reflexivity. Qed.
+
+Theorem user_call_cycles_guarded :
+  forall e, In e jump_edges ->
+  forall t, walk runtime_graph (fst e :: t ++ [fst e]) = true -> noguard guard_fns (fst e :: t) = false.
+Proof.
+  intros e He t Hw. pose proof user_call_off_cycle as H. rewrite forallb_forall in H.
+  exact (off_cycle_sound runtime_graph guard_fns (fst e) (H e He) t Hw).
+Qed.
 
 Theorem runtime_cycles_guarded :
   forall c, allkeys runtime_graph c = true -> cycle_b runtime_graph c = true ->
@@ -683,7 +771,7 @@ Theorem runtime_depth_bound :
   nest_bounded descent_edges guard_fns d p ->
   used fs p <= stack_budget + M * (1 + (Z.of_nat d + 1) * runtime_L).
 Proof.
-  intros fs M d p Hfs Hk Hw Hc Hn.
+  intros fs M d p Hfs Hk Hw Hc Hn. unfold runtime_L, runtime_core.
   apply (guarded_depth_bound_M runtime_graph guard_fns descent_edges fs stack_budget M d p
            runtime_graph_closed runtime_core_acyclic Hfs); try assumption.
   vm_compute. discriminate.
@@ -743,7 +831,7 @@ Theorem front_end_depth_unbounded :
     checked stack_budget fs guard_fns 0 p = true /\ bound < used fs p.
 Proof.
   intros gw Hgw c Hc fs Hfs bound.
-  apply unguarded_depth_unbounded; [|exact Hfs].
+  apply (unguarded_depth_unbounded (fst gw) guard_fns c); [|exact Hfs].
   cbn [In] in Hgw.
   destruct Hgw as [<-|[<-|[<-|[<-|[]]]]]; cbn [fst snd] in *.
   - pose proof parser_unguarded as H. rewrite forallb_forall in H. exact (H c Hc).
